@@ -220,6 +220,10 @@ func c05Alphabet(s *sessSys) []sessReq {
 		}
 		for _, x := range s.m.live(c) {
 			add("del", sessReq{sReq: sReq{Kind: kDel, Conn: c}, Sess: x.Idx})
+			if p4 && c == 0 {
+				// a deletion the datapath refuses (its first write fails): the session stays, and so does everything it holds
+				add("del-write1-fails", sessReq{sReq: sReq{Kind: kDel, Conn: c}, Sess: x.Idx, FailAt: 1})
+			}
 			add("srr-context-not-found", sessReq{sReq: sReq{Kind: kSRR, Conn: c, Cause: ie.CauseSessionContextNotFound}, Sess: x.Idx})
 			if c == 0 {
 				if f := x.far(2); f != nil && f.OHCTEID != 0x7001 && f.OHCIP != "" {
